@@ -65,6 +65,7 @@ type FuncContract struct {
 	NoSafety   bool          // do not generate nil/bounds/assert/div/panic obligations (partial correctness of the stated clauses only)
 	Template   bool          // verif:methods template, instantiated for every matching method
 	Taint      bool          // generate diagnostic-content (taint) obligations
+	AssumePre  bool          // preconditions of callees are assumed, not proved (they are another unit's concern)
 }
 
 func (c *FuncContract) FullName() string {
@@ -236,6 +237,12 @@ func (cs *ContractSet) loadContractFile(path, pkgPath string) error {
 				pend = &pending{"pred", arg, where}
 			case "axiom":
 				pend = &pending{"axiom", arg, where}
+			case "ghostvar":
+				fs := strings.Fields(arg)
+				if len(fs) != 2 {
+					return fmt.Errorf("%s: verif:ghostvar name sort", where)
+				}
+				cs.Ghosts["$global."+fs[0]] = &GhostField{Type: "$global", Name: fs[0], Sort: fs[1], Where: where}
 			case "ghostfield":
 				fs := strings.Fields(arg)
 				if len(fs) != 2 || !strings.Contains(fs[0], ".") {
@@ -412,6 +419,8 @@ func (cs *ContractSet) addClause(c *FuncContract, text, where string) error {
 		c.NoNilRecv = true
 	case "nosafety":
 		c.NoSafety = true
+	case "assumepre":
+		c.AssumePre = true
 	case "results":
 		c.Results = strings.Fields(strings.ReplaceAll(rest, ",", " "))
 	case "props":
